@@ -371,6 +371,9 @@ def population(ctx):
     for _ in range(400 if q else 3000):
         y, meta = specgen_c12.gen(rng)
         items.append({"yaml": y, "kind": "generated-c12", "meta": meta})
+    for _ in range(40 if q else 300):
+        y, meta = specgen_c12.gen_sigma(rng)
+        items.append({"yaml": y, "kind": "generated-c12-sigma", "meta": meta})
     return items
 
 
